@@ -317,6 +317,21 @@ fn routing_sweep(t: &mut Tally) {
         ("v = 'c'".into(), Form::NvLit(LitK::Char, 1)),
         ("v = 5".into(), Form::NvLit(LitK::Other, 1)),
         ("v = a::b".into(), Form::NvExpr(1)),
+        // operators in front of a literal: only a negated number is a literal
+        ("v = !5".into(), Form::NvExpr(0)),
+        ("v = *5".into(), Form::NvExpr(0)),
+        ("v = &5".into(), Form::NvExpr(0)),
+        ("v = !1.5".into(), Form::NvExpr(0)),
+        ("v = *1.5".into(), Form::NvExpr(1)),
+        ("v = !5".into(), Form::NvExpr(1)),
+        ("v = -x".into(), Form::NvExpr(0)),
+        ("v = !true".into(), Form::NvExpr(0)),
+        ("v = -true".into(), Form::NvExpr(0)),
+        ("v = -'c'".into(), Form::NvExpr(0)),
+        ("v = -\"s\"".into(), Form::NvExpr(0)),
+        ("v = -(5)".into(), Form::NvExpr(0)),
+        ("v = (5)".into(), Form::NvExpr(0)),
+        ("v = !-5".into(), Form::NvExpr(0)),
         ("\"s\"".into(), Form::NestedLit(LitK::Str)),
         ("true".into(), Form::NestedLit(LitK::Bool)),
         ("'c'".into(), Form::NestedLit(LitK::Char)),
